@@ -84,7 +84,9 @@ pub struct Written {
 pub fn write_case(prop: &str, c: &CodeCase, rep: &mut Report, judge_image: bool, judge_ret: bool) -> Option<Written> {
     let e = c.e;
     let mut rng = Rng::derive(c.seed, (c.offset as u64 * 31).wrapping_add(c.value));
-    let mut h = make_writer(WCfg { e, w: c.w, be: WBackend::VecOwned });
+    // recording backend: the number of words a single code write may deliver is bounded by the
+    // model length (a write that runs away is a budget panic, not a watchdog timeout)
+    let mut h = make_writer(WCfg { e, w: c.w, be: WBackend::Rec(None) });
     let mut mb: Bits = vec![];
     let mut left = c.offset;
     while left > 0 {
@@ -101,7 +103,17 @@ pub fn write_case(prop: &str, c: &CodeCase, rep: &mut Report, judge_image: bool,
     let before = mb.len();
     push_code(&mut mb, e, code, c.value);
     let clen = mb.len() - before;
+    if let Some(l) = &h.log {
+        let mut l = l.borrow_mut();
+        l.calls_this_op = 0;
+        l.budget = ((c.offset + clen) / c.w.bits()) as u64 + 8;
+    }
     let got = guard(|| h.w.write_code(c.wop, c.value));
+    if let Some(l) = &h.log {
+        let mut l = l.borrow_mut();
+        l.calls_this_op = 0;
+        l.budget = 1 << 20;
+    }
     rep.eval(1);
     let sig = format!("{}|{}|{}|{}", e.name(), c.w.name(), code.family(), c.wop.name().split('(').next().unwrap_or(""));
     match &got {
